@@ -287,6 +287,26 @@ def run(ctx: Ctx, tier: str) -> Result:
                 res.fail(Finding("C07.CHILD", f.qname, c, f.loc(c), "a table entry is created with a children list that is not its own (%s): children recorded for one value show up "
                                  "under every value sharing the list, in this and in later snapshots" % [norm(a)[:40] for a in alts]))
 
+    # the collector answers `has this object been recorded` with the identity cache's answer and nothing else: the cache is
+    # shared by the frame collection, the watches and the captures of one snapshot, the tables are not (a second opinion
+    # based on the table at hand makes a recorded object be recorded again - under an id that is already taken)
+    vspc = p.cls("deep.processor.variable_set_processor.VariableSetProcessor")
+    for mname in ("check_id", "new_var_id"):
+        wf = vspc.lookup(mname)
+        if wf is None:
+            continue
+        rets_ = [r for r in t.nodes_in(wf, ast.Return)]
+        fwd = [r for r in rets_ if r.value is not None and isinstance(r.value, ast.Call) and isinstance(r.value.func, ast.Attribute) and r.value.func.attr == mname
+               and len(r.value.args) == 1 and norm(r.value.args[0]) == wf.params[1]]
+        alt_ = [r for r in rets_ if r not in fwd]
+        if len(fwd) == 1 and isinstance(alt_, list) and not alt_ and not paths.conditions(p, fwd[0], wf):
+            res.ok("C07.INJECT", {"the collector's %s is the cache's answer" % mname: norm(fwd[0].value)[:60]})
+        elif rets_ and all(r.value is not None and isinstance(r.value, ast.Name) for r in rets_) and len(rets_) == 1 and not list(t.nodes_in(wf, ast.If)):
+            res.ok("C07.INJECT", {"the collector's %s is the cache's answer (through a local)" % mname: norm(rets_[0].value)})
+        else:
+            bad_ = (alt_ or rets_ or [wf.node])[0]
+            res.fail(Finding("C07.INJECT", wf.qname, bad_, wf.loc(bad_) if bad_ is not wf.node else wf.loc(), "the collector's %s does not simply hand on the identity cache's answer (`%s`): "
+                             "an object the snapshot already holds is taken for new, recorded again and given an id that is in use" % (mname, norm(bad_)[:60])))
     # ---------------- OPTIONAL
     checkers = [f for f in p.functions.values() if f.name == "check_id" and f.module.name.startswith("deep.processor")]
     nopt = 0
